@@ -9,6 +9,7 @@
 #include "../harness/kernels.hpp"
 #include "../harness/ctorops.hpp"
 #include "../harness/lsm_explore.hpp"
+#include "../harness/hugestride.hpp"
 extern "C" {
 #include "reim4/reim4_fftvec_public.h"
 }
@@ -156,6 +157,17 @@ int main(int argc, char** argv) {
   std::vector<ApiGroup> lgroups = api_groups(ol);
   std::stable_sort(lgroups.begin(), lgroups.end(), [](const ApiGroup& a, const ApiGroup& b) { return a.N > b.N; });
   ctx.parallel(lgroups.size(), [&](uint64_t gi) { run_group(lgroups[gi], ol, [&](ApiCase& c) { four_runs(ctx, c, 4); }); }, "module entry points, large ring dimensions");
+  // strides are caller-chosen 64-bit values: limb offsets beyond 32-bit element / byte arithmetic.  The vector's extent is reserved
+  // PROT_NONE, only the limbs are accessible: an access computed with a truncated offset faults or lands in a canary
+  {
+    struct HI { uint64_t N; CpuCfg cfg; int op; int mt; };
+    std::vector<HI> hi;
+    for (uint64_t N : {8, 256}) for (auto& c : o.cf) {
+      hi.push_back({N, c, -1, 0});
+      for (int op = 0; op < NVECOPS; ++op) for (int mt = 0; mt < 2; ++mt) if (!(mt == 1 && VECOPS[op].fft64_only)) hi.push_back({N, c, op, mt});
+    }
+    ctx.parallel(hi.size(), [&](uint64_t i) { if (hi[i].op < 0) huge_stride_transforms(ctx, hi[i].N, hi[i].cfg); else huge_stride_vecops(ctx, hi[i].N, hi[i].op, hi[i].mt, hi[i].cfg); }, "huge strides");
+  }
   std::vector<KernelGroup> kg = kernel_groups(args.thorough());
   ctx.parallel(kg.size(), [&](uint64_t gi) { run_kernel_group(kg[gi], args.thorough(), [&](ApiCase& c, const KernelInfo&) { four_runs(ctx, c, noff); }); }, "kernels");
   std::vector<uint64_t> ms;
@@ -205,7 +217,7 @@ int main(int argc, char** argv) {
                      "kernels are called only from their recorded minimum size upwards (unroll width / dispatch domain)"};
   return ctx.finish("fault_enumeration",
                     "entry-point table and exported-kernel table over their shape boxes, each case executed 4 (quick) / 8 (thorough) times with rotating per-buffer offsets "
-                    "(multiples of 8 bytes) and 3 prefill patterns; plus every constructor/destructor pair at every m = 1..65536 and every constructor x size x 3 contents of freshly allocated heap memory; non-trivial when the case writes something "
+                    "(multiples of 8 bytes) and 3 prefill patterns; every strided entry point also with strides 2^28+N+1, 2^29+N, 2^31+N+3, 2^32+N+1 (sparse PROT_NONE reservations); plus every constructor/destructor pair at every m = 1..65536 and every constructor x size x 3 contents of freshly allocated heap memory; non-trivial when the case writes something "
                     "(res_size>0 ...) or allocates; distinct = distinct case ids",
                     true);
 }
